@@ -771,13 +771,16 @@ func isolated(scenario string) bool { return scenario == "tierb" }
 func explainDivergence(name string, index, procs int) {
 	trace := func(p int) []string {
 		cmd := exec.Command(os.Args[0], "-test.run", "^TestSim$", "-test.timeout", "0", "-sim.role=worker", "-sim.scenario="+name, "-sim.verbose",
-			"-sim.base="+strconv.FormatUint(*fBase, 10), "-sim.from="+strconv.Itoa(index), "-sim.n=1", "-sim.out="+os.DevNull)
+			"-sim.base="+strconv.FormatUint(*fBase, 10), "-sim.from=0", "-sim.n="+strconv.Itoa(index+1), "-sim.out="+os.DevNull)
 		cmd.Env = append(os.Environ(), "GOMAXPROCS="+strconv.Itoa(p))
 		var stderr bytes.Buffer
 		cmd.Stderr = &stderr
 		cmd.Run()
 		var out []string
 		for _, l := range strings.Split(stderr.String(), "\n") {
+			if strings.HasPrefix(l, "CASE ") {
+				out = out[:0] // keep the last run only
+			}
 			if strings.HasPrefix(l, "  ") || strings.HasPrefix(l, "CASE ") {
 				out = append(out, l)
 			}
@@ -818,5 +821,8 @@ func explainDivergence(name string, index, procs int) {
 		}
 		return
 	}
-	fmt.Printf("  (the run alone, index %d, is identical at both settings: %d trace lines; the difference needs the runs before it)\n", index, len(a))
+	fmt.Printf("  (re-run of indexes 0..%d: index %d is identical at both settings, %d trace lines)\n", index, index, len(a))
+	for _, l := range a {
+		fmt.Printf("  trace     %s\n", l)
+	}
 }
